@@ -62,6 +62,7 @@ def parseDump (lines : List String) (entryAddr : Nat) (params : List Param) : Mo
     | ["exctab", n] => { md with excCount := n.toNat! }
     | ["x", b, h] => { md with exctab := md.exctab.push ⟨b.toNat!, h.toNat!⟩ }
     | ["entry", e] => { md with codeEntry := e.toNat! }
+    | ["fn", a, k] => { md with fnParams := md.fnParams ++ [(a.toNat!, k.toNat!)] }
     | _ => md
   lines.foldl step { code := #[], strtab := #[], exctab := #[], excCount := 0, codeEntry := 0, entryAddr := entryAddr, params := params }
 
